@@ -10,6 +10,7 @@ import resource
 import time
 import tracemalloc
 
+from vlib import core
 from vlib import gen
 from vlib import refcodec as R
 from vlib import scenario as S
@@ -416,6 +417,13 @@ class Attack:
         for e in res.get('events', []):
             if e[0] == 'handler':
                 ctx.count('handler_invocations_during_attack')
+                if not isinstance(e[4], str):
+                    self.fail('offender frame invoked %s handler with %r in '
+                              'the place of the session id' % (
+                                  e[1], type(e[4]).__name__),
+                              {'frame': repr(op[2])[:400],
+                               'event': core.jsonable(e)})
+                    return False
                 if e[4] in self.by_sids:
                     self.fail('offender frame invoked %s handler on behalf '
                               'of bystander %r' % (e[1], e[4]),
